@@ -37,6 +37,10 @@ type replayFile struct {
 	// then the tape. Such a replay is not minimised.
 	PreludeSeeds []uint64 `json:"prelude_seeds,omitempty"`
 	Note         string   `json:"note,omitempty"`
+	// SeedOnly: the run killed the whole process (a Go runtime fatal error
+	// thrown inside the code under test), so no tape was recorded; the replay
+	// is the run of this seed in a fresh process, which dies the same way.
+	SeedOnly bool `json:"seed_only,omitempty"`
 }
 
 type workerOut struct {
@@ -103,7 +107,11 @@ func TestVerif(t *testing.T) {
 		for _, ps := range rf.PreludeSeeds {
 			_ = simkern.Exec(t, prop, rf.Tier, simkern.NewSeedTape(ps), false, info.Run)
 		}
-		res := simkern.Exec(t, prop, rf.Tier, simkern.NewReplayTape(rf.Tape), true, info.Run)
+		tape := simkern.NewReplayTape(rf.Tape)
+		if rf.SeedOnly {
+			tape = simkern.NewSeedTape(rf.Seed)
+		}
+		res := simkern.Exec(t, prop, rf.Tier, tape, true, info.Run)
 		out := map[string]any{"result": res, "expected": rf.Violation}
 		same := res.Violation != nil && rf.Violation != nil && res.Violation.Key() == rf.Violation.Key()
 		out["reproduced"] = same
@@ -147,6 +155,10 @@ func TestVerif(t *testing.T) {
 			break
 		}
 		seed := seedStart + uint64(i)
+		if outPath != "" {
+			// which run is in progress, for the driver, should the process die
+			_ = os.WriteFile(outPath+".cur", []byte(fmt.Sprintf("%d %d", seed, seedStart)), 0o644)
+		}
 		res := simkern.Exec(t, prop, tier, simkern.NewSeedTape(seed), determinism, info.Run)
 		res.Seed = seed
 		wo.Runs++
